@@ -24,7 +24,7 @@ META = {
     'assumptions': ['arguments are dictionary keys and therefore realised: solver-enumerated finite domains'],
 }
 
-SEEDS_Q = ['CCO', 'C1CC1C', 'C[C@H](N)O', 'F/C=C/Cl', 'CC(=O)O', 'CC.OC', 'CN~[Cu]', 'CC[C@H](N)O']
+SEEDS_Q = ['CCO', 'C1CC1C', 'C[C@H](N)O', 'F/C=C/Cl', 'CC(=O)O', 'CC.OC', 'CN~[Cu]', 'CC[C@H](N)O', 'C1CC2CC1C2']
 SEEDS_X = ['C1CCCCC1C', 'C=CC=C', 'C1CC1C1CC1', 'CC[N+](C)(C)[O-]']
 SEEDS_T = SEEDS_Q + SEEDS_X + ['C1CC2CC1C2', 'C[C@H]1CC[C@@H](O)O1', 'FC=[C@]=CCl', 'OCC(O)CO', 'C#CC=C', 'CS(=O)(=O)C', 'C1CCC1CC=O']
 
